@@ -157,8 +157,38 @@ def _msg_lines(filename):
     return r
 
 
+NUMFMT_ACTIVE = [False]  # set by vx.numfmt.enable(): the formatting functions are the subject then, no placeholders
 FORMAT_FUNCS = {"print_dict_as_table", "get_formatted", "_report_data", "_report_model", "_report_fit_results", "report", "_get_preface_comment", "get_compact_representation",
                 "_get_fit_info", "_format_number"}
+
+
+def _in_raise_or_warn():
+    """the innermost repository frame sits on a raise / warn / logging line"""
+    f = sys._getframe(2)
+    depth = 0
+    while f is not None and depth < 16:
+        fn = f.f_code.co_filename
+        if fn.startswith(REPO_PREFIX):
+            return f.f_lineno in _msg_lines(fn)
+        f = f.f_back
+        depth += 1
+    return False
+
+
+def _innermost_repo_func():
+    f = sys._getframe(2)
+    depth = 0
+    while f is not None and depth < 16:
+        if f.f_code.co_filename.startswith(REPO_PREFIX):
+            return f.f_code.co_name
+        f = f.f_back
+        depth += 1
+    return None
+
+
+def _called_from_repo():
+    f = sys._getframe(2)
+    return f is not None and f.f_code.co_filename.startswith(REPO_PREFIX)
 
 
 def in_message_context(skip=2):
@@ -173,7 +203,7 @@ def in_message_context(skip=2):
             if first and f.f_lineno in _msg_lines(fn):
                 return True
             first = False
-            if f.f_code.co_name in FORMAT_FUNCS:
+            if f.f_code.co_name in FORMAT_FUNCS and not NUMFMT_ACTIVE[0]:
                 return True
         f = f.f_back
         depth += 1
@@ -247,7 +277,7 @@ def _numeric(o):
 
 
 class SymReal:
-    __slots__ = ("e",)
+    __slots__ = ("e", "decade", "log_of")
     __array_priority__ = 1000
 
     def __init__(self, e):
@@ -391,9 +421,18 @@ class SymReal:
     def __repr__(s):
         return "Sym(%s)" % simp(s.e)
 
-    __str__ = __repr__
+    def __str__(s):
+        from . import numfmt
+
+        if numfmt.active() and not _in_raise_or_warn() and _called_from_repo():
+            return numfmt.fmt_exact(s)
+        return repr(s)
 
     def __format__(s, spec):
+        from . import numfmt
+
+        if numfmt.active() and not _in_raise_or_warn():
+            return numfmt.format_spec(s, spec)
         return repr(s)
 
     def __float__(s):
@@ -408,6 +447,10 @@ class SymReal:
         c = const_value(s.e)
         if c is not None:
             return int(c)
+        if getattr(s, "decade", None) is not None:
+            from . import numfmt
+
+            return numfmt.trunc_log(s)
         if in_message_context():
             return 0
         raise Inconclusive("concretisation", "int() of %s" % _where())
@@ -419,6 +462,10 @@ class SymReal:
         raise Inconclusive("concretisation", "index() of %s" % _where())
 
     def __round__(s, nd=None):
+        from . import numfmt
+
+        if numfmt.active() and not _in_raise_or_warn():
+            return numfmt.round_to(s, 0 if nd is None else nd)
         if in_message_context():
             return 0.0
         raise Inconclusive("concretisation", "round() of %s" % _where())
@@ -549,6 +596,12 @@ def sqrt(x):
 
 def floor(x):
     if isinstance(x, SymReal):
+        if getattr(x, "decade", None) is not None:
+            return float(x.decade)  # log10 value from vx.numfmt.log10: its decade is decided on this path
+        if NUMFMT_ACTIVE[0] and const_value(x.e) is None and not _in_raise_or_warn():
+            from . import numfmt
+
+            return numfmt.floor_fork(x)
         return SymReal(z3.ToReal(z3.ToInt(x.e)))
     return math.floor(x)
 
@@ -735,6 +788,7 @@ class PathResult:
         self.inputs = {}
         self.divs = []
         self.subs = []
+        self.numties = []
         self.model = None
 
 
@@ -761,6 +815,8 @@ class Engine:
         self.divcache = {}
         self.divs = []
         self.nfresh = 0
+        self.numtok = {}  # number -> text tokens of this path (vx.numfmt)
+        self.numties = []  # strict (tie-free) versions of the rounding constraints of this path
         self.notes = []
         self.obligations = []
         self.axioms = []
@@ -995,6 +1051,7 @@ class Engine:
             pr.poisons = dict(self.poisons)
             pr.inputs = dict(self.inputs)
             pr.subs = list(self.subs)
+            pr.numties = list(self.numties)
             pr.model = self.model
             out.append(pr)
             for u in self.unknown_sides:
